@@ -17,6 +17,7 @@ type fsModel struct {
 	c         *Ctx
 	fIndex    *types.Var
 	fPath     *types.Var
+	fRoot     *types.Var
 	rawPath   *ssa.Function
 	rawFns    map[*ssa.Function]bool
 	fns       []*ssa.Function
@@ -57,6 +58,7 @@ var fsMutators = map[string]int{ // name -> number of path args
 	"os.Create": 1, "os.OpenFile": 1, "os.WriteFile": 1, "os.Truncate": 1, "os.Rename": 2,
 	"os.Remove": 1, "os.RemoveAll": 1, "os.Mkdir": 1, "os.MkdirAll": 1, "os.Chmod": 1,
 	"os.Symlink": 2, "os.Link": 2, "os.Chtimes": 1,
+	"os.CreateTemp": 1, "os.MkdirTemp": 1, // the path argument is the directory the new entry is made in
 }
 
 func (c *Ctx) fsModel() *fsModel {
@@ -64,6 +66,7 @@ func (c *Ctx) fsModel() *fsModel {
 	m := &fsModel{c: c}
 	m.fIndex = p.Field("pkg/storage/file", "mbox", "indexPath")
 	m.fPath = p.Field("pkg/storage/file", "mbox", "path")
+	m.fRoot = p.OptField("pkg/storage/file", "Store", "mailPath")
 	m.rawPath = p.Method("pkg/storage/file", "Message", "rawPath")
 	m.writeIdx = p.Method("pkg/storage/file", "mbox", "writeIndex")
 	m.removeDir = p.Method("pkg/storage/file", "mbox", "removeDir")
@@ -155,6 +158,8 @@ func (m *fsModel) classIn(v ssa.Value, env *fsEnv, depth int) string {
 			return "index"
 		case eng.SameField(f, m.fPath):
 			return "dir"
+		case m.fRoot != nil && eng.SameField(f, m.fRoot):
+			return "root"
 		}
 	}
 	switch x := v.(type) {
@@ -227,6 +232,7 @@ func checkC11(c *Ctx) {
 	r.Rule("C11/ORDER/add", "AddMessage: Create(raw) → io.Copy → Flush → Close dominate the index update; every error return after the raw file exists passes os.Remove(raw)")
 	r.Rule("C11/ORDER/remove", "removeMessage: the index update dominates os.Remove(raw)")
 	r.Rule("C11/ORDER/purge", "removeDir: os.Remove(indexPath) dominates os.RemoveAll(dir) — an index listing messages whose raw files are gone must never be observable")
+	r.Rule("C11/LAYOUT/root-holds-directories", "no file-creating call (Create, CreateTemp, OpenFile, WriteFile) targets the mail root itself: whatever a crash leaves there is visited as a mailbox directory")
 	r.Rule("C11/INVENTORY", "every file-system mutating call in pkg/storage/file has a classified (operation, path class) pair from the confirmed table")
 	m := c.fsModel()
 	if m == nil {
@@ -244,6 +250,10 @@ func checkC11(c *Ctx) {
 				r.Bad("C11/ATOMIC/index", cons, site, "os.%s(mbox.indexPath) truncates the live index before the new content is written: a crash in between leaves an undecodable index, which fails every operation on the mailbox and aborts VisitMailboxes for the whole store", e.op)
 				continue
 			}
+		}
+		if (e.op == "CreateTemp" || e.op == "Create" || e.op == "WriteFile" || strings.HasPrefix(e.op, "OpenFile")) && (e.class[0] == "root" || e.class[0] == "derived(root)") {
+			r.Bad("C11/LAYOUT/root-holds-directories", cons, site, "os.%s makes a regular file directly under the mail root: the root's entries are walked as hash directories by VisitMailboxes, so a process that dies while that file exists (before it is renamed or removed) leaves a store whose every visit — and so every retention scan — fails with 'not a directory'", e.op)
+			continue
 		}
 		if e.op == "OpenFile:excl" && strings.HasPrefix(cls, "derived(index)") {
 			r.Bad("C11/ATOMIC/index", cons, site, "the temporary index is opened with O_EXCL: a temporary file left behind by a write that was interrupted (process killed between creating it and the rename) makes every later index write of that mailbox fail with 'file exists' — after a restart the mailbox accepts no delivery, mark or removal")
